@@ -8,7 +8,9 @@ Driver for C06. Case line:
 field kinds: `s T` scalar, `o T` Optional scalar, `e E` enum, `oe E` Optional enum, `d` datetime, `od` Optional datetime,
 `j T` list of builtins, `r C` reference, `or C` Optional reference, `l C` collection, `cu P` / `ocu P` (Optional) field
 of a class `P` that is a key of the `type_mappings` argument (the item `(tm P Q …)` lists all keys, used or not; the
-model does not need it).  The class list handed to the
+model does not need it; likewise `(ek plain|int|str|strenum …)`, the flavour of each enum class — plain `Enum`,
+`IntEnum`, `(str, Enum)`, `StrEnum` — every flavour is an enum for the model and the spec).  Every column is printed as
+`name[?|!]:<type class>` (k key, b builtin scalar, e enum, d datetime, j JSON, c custom).  The class list handed to the
 model is the `c` entries re-ordered by `ord` (the order given to `ClassDiagram`).
 -/
 namespace KrroodVerif.Drive.C06
@@ -52,8 +54,11 @@ def parseModel (items : List Sexp) : Option ClassModel := do
 
 def showOpt : Option Name → String | none => "Base" | some b => str b
 
-def showCol (c : Name × Option Bool) : String :=
-  str c.1 ++ (match c.2 with | none => "" | some true => "?" | some false => "!")
+def showTy : ColTy → String
+  | .key => "k" | .builtin => "b" | .enum => "e" | .datetime => "d" | .json => "j" | .custom => "c"
+
+def showCol (c : Name × Option Bool × ColTy) : String :=
+  str c.1 ++ (match c.2.1 with | none => "" | some true => "?" | some false => "!") ++ ":" ++ showTy c.2.2
 
 def showObs (o : Obs) : String :=
   let ts := sortStrings (o.tables.map (fun t =>
